@@ -71,6 +71,8 @@ class ForwardAnalysis(Generic[T], Analysis[T], ABC):
             if not self.eq(val_after, vals_after[bb]):
                 vals_after[bb] = val_after
                 queue.update(bb.successors)
+                if self.include_unreachable():
+                    queue.update(bb.dummy_successors)
             if _verif.ON:
                 _verif.trace(
                     "ForwardAnalysis.run",
@@ -111,6 +113,8 @@ class BackwardAnalysis(Generic[T], Analysis[T], ABC):
             if not self.eq(vals_before[bb], val_before):
                 vals_before[bb] = val_before
                 queue.update(bb.predecessors)
+                if self.include_unreachable():
+                    queue.update(bb.dummy_predecessors)
             if _verif.ON:
                 _verif.trace(
                     "BackwardAnalysis.run",
